@@ -703,7 +703,7 @@ int main(int argc, char** argv) {
   derivOrderSpace(R, th);
   builtinSpaces(R, th);
 
-  int depth = th ? 4 : 3;
+  int depth = th ? 5 : 4;
   for (int a = 0; a < 3; ++a) for (int m = 0; m < 3; ++m) {
     Alg alg = (Alg)a; Mod mod = (Mod)m;
     R.explore(std::string("history:") + ALGN[a] + ":" + MODN[m] + ":n2:L3:d" + str(depth), depth, LikSys::NOPS, [alg, mod] { return std::unique_ptr<LikSys>(new LikSys(alg, mod)); }, 10.0);
